@@ -59,6 +59,27 @@ def records(ctx):
         fs = rand_spectrum(rng, sh, folded=rng.random() < 0.3, labels=rand_labels(rng, len(sh)), mask_mode=rng.choice(['corners', 'single']))
         for ns in ([rng.randint(1, max(1, s - 2)) for s in sh], [1] * len(sh), [s - 1 for s in sh]):
             add('project', {'s': enc(fs), 'ns': list(ns)}, observe(lambda: fs.project(list(ns))), site='Spectrum.project')
+    # 2c. a masked entry in the bulk of a large spectrum: every target entry it can reach must be masked (fixed cases, own RNG)
+    r2 = random.Random(ctx.seed + 808)
+    for sh, ns in (([201], [100]), ([121, 3], [60, 2])) if ctx.quick else (([201], [100]), ([121, 3], [60, 2]), ([181], [90]), ([4, 141], [2, 75]), ([201], [150])):
+        fs = rand_spectrum(r2, sh, folded=False, labels=rand_labels(r2, len(sh)), mask_mode='corners')
+        mid = tuple(s_ // 2 for s_ in sh)
+        fs.mask[mid] = True
+        add('project', {'s': enc(fs), 'ns': list(ns)}, observe(lambda: fs.project(list(ns))), site='Spectrum.project')
+    # 2d. the same object projected twice: both results are the projection of the object as it was, and the object (values,
+    #     mask, folding, labels) is left as it was - folded spectra in particular (projection unfolds internally)
+    for k in range(6 if ctx.quick else 40):
+        ndim = [1, 2, 3][k % 3]
+        sh = rand_shape(r2, ndim, 2, {1: 12, 2: 7, 3: 4}[ndim])
+        fs = rand_spectrum(r2, sh, folded=(k % 2 == 0), labels=rand_labels(r2, ndim), mask_mode=['single', 'random', 'corners'][k % 3])
+        ns = [r2.randint(1, s_ - 1) for s_ in sh]
+        before = enc(fs)
+        o1 = observe(lambda: fs.project(ns))
+        o2 = observe(lambda: fs.project(ns))
+        after = enc(fs)
+        add('project', {'s': before, 'ns': ns}, o1, site='Spectrum.project')
+        add('project', {'s': before, 'ns': ns}, o2, site='Spectrum.project[second call on the same object]')
+        add('unchanged', {'law': 'ObjectUnchangedByProject', 'ns': ns}, {'s': before, 't': after}, site='Spectrum.project')
     # 2b. the projection weights are shared (memoised) with Spectrum.from_data_dict: after building spectra from
     #     data dictionaries that project n -> m, the weights and project() for the same (m, n) must be unchanged
     for (n, m) in ([(10, 6), (7, 3)] if ctx.quick else [(10, 6), (7, 3), (16, 9), (24, 5)]):
@@ -87,6 +108,8 @@ def nontrivial(r):
         i = r['in']
         return ('w', i['m'], i['n'], i['h']) if 0 < i['h'] < i['n'] else None
     i = r['in']
+    if r['op'] == 'unchanged':
+        return ('unchanged', i['law'], tuple(r['out']['s']['sh']), r['out']['s']['f'])
     s = i['s']
     ns = i.get('ns', i.get('ns2'))
     return (r['op'], tuple(s['sh']), s['f'], tuple(ns), any(s['m'][1:-1]))
